@@ -65,7 +65,7 @@ def main():
             for l in lines[:6]:
                 print("   ", l[:260])
         res["checks"] = det
-        res["detected_by"] = sorted(p for p, d in det.items() if d["exit"] == 1)
+        res["detected_by"] = sorted(p for p, d in det.items() if d["exit"] == 1 and any(l.startswith("VIOLATION") for l in d["lines"]))
         dst = os.path.join(VERIF, "seeded", name)
         if res["confirmed"]:
             if os.path.realpath(src) != os.path.realpath(dst):
